@@ -46,6 +46,19 @@ RateNext(s) ==
      ELSE s.stable.rateMax
 RateDue(s, t) == LET len == IF s.stable.epochLength \preceq Zero THEN One ELSE s.stable.epochLength IN N(t.chain.h) %% len = Zero
 
+\* perpetual's funding rate as a deterministic specification (begin_blocker.go ComputeFundingRate, evaluated every block before
+\* any module that touches perpetual pools): fixed rate * |long - short open interest| / (long + short), positive when longs
+\* are the popular side (they pay), negative when shorts are, zero while one side is empty.  Dec Quo / Mul as the SDK does them.
+LongOI(pl)  == SumOver({d \in DOMAIN pl.long : pl.long[d].custody # Zero}, LAMBDA d : pl.long[d].custody -- pl.long[d].collateral)
+ShortOI(pl) == SumOver(DOMAIN pl.short, LAMBDA d : pl.short[d].liab)
+DecQuoInts(a, b) == RHE((a ** E18 ** E18) // b, E18)            \* a, b non-negative integers: (a as Dec).Quo(b as Dec), mantissa
+DecMulM(x, y) == RHE(x ** y, E18)                                \* Dec.Mul on non-negative mantissas
+FundingNext(pl, fixed) ==
+  LET L == LongOI(pl)  S == ShortOI(pl) IN
+  IF L = Zero \/ S = Zero THEN Zero
+  ELSE IF L \succ S THEN DecMulM(DecQuoInts(L -- S, L ++ S), fixed)
+  ELSE Zero -- DecMulM(DecQuoInts(S -- L, L ++ S), fixed)
+
 ExtStepChecks(k, e, s, t) ==
   LET ids == EpochIds(s) \cap EpochIds(t)
       now == t.chain.t
@@ -69,6 +82,12 @@ ExtStepChecks(k, e, s, t) ==
        Chk("EXT", "EXT.burner.burns_exactly_the_zero_address_holdings_at_its_epoch_end", ds # {}, badBurn = {}, Bad(badBurn)) }
      \cup (IF k \in {"Tx", "Begin"} THEN
             { Chk("EXT", "EXT.rewards.touched_record_is_checkpointed_against_the_current_accumulator", touched # {}, badCp = {}, Bad(badCp)) }
+          ELSE {})
+     \cup (IF k = "Begin" /\ "fixedFunding" \in DOMAIN s.perp THEN
+            LET ps == DOMAIN s.perp.pools \cap DOMAIN t.perp.pools
+                badF == {p \in ps : t.perp.pools[p].fundingRate # FundingNext(s.perp.pools[p], s.perp.fixedFunding)} IN
+            { Chk("EXT", "EXT.perpetual.funding_rate_follows_the_open_interest_rule",
+                  \E p \in ps : LongOI(s.perp.pools[p]) # Zero /\ ShortOI(s.perp.pools[p]) # Zero, badF = {}, Bad(badF)) }
           ELSE {})
      \cup (IF "hgf" \in DOMAIN s.stable /\ "hgf" \in DOMAIN t.stable THEN
             { Chk("EXT", "EXT.stablestake.interest_rate_follows_the_utilisation_rule", k = "Begin" /\ RateDue(s, t),
